@@ -87,7 +87,7 @@ def main():
         allp = "-all" in args
         verbose = "-v" in args
         args = [a for a in args if a not in ("-all", "-v")]
-        dirs = args or ["/verif/mutants", "/verif/seeded"]
+        dirs = args or ["/verif/mutants", "/verif/seeded", "/verif/neutral"]
         files = []
         for d in dirs:
             if os.path.isfile(d): files.append(d); continue
